@@ -21,8 +21,8 @@ def main():
     na = []
     ids = [json.loads(l)["id"] for l in open(os.path.join(V, "properties.jsonl"))]
     for i in ids:
-        if i in props.CHECKS and i in INFO:
-            text, note, tech, ref = INFO[i]
+        if i in props.CHECKS and (i in INFO or i in props.INFO):
+            text, note, tech, ref = INFO.get(i) or props.INFO[i]
             checks.append({"property_id": i, "quick_cmd": "bin/check %s --tier quick" % i, "thorough_cmd": "bin/check %s --tier thorough" % i,
                            "evidence_file": "evidence/%s.json" % i, "replay_cmd_template": "bin/check %s --replay {path}" % i,
                            "engine": "tlc+vh", "level_claimed": {"category": "model_checking", "text": text, "design_ref": "DESIGN.md section " + ref},
